@@ -255,7 +255,7 @@ def __curve_fit(fit_func, xdata, ydata, parguess, yerr) -> RawFitResults:
             func = __combine_fit_func_and_fit_params(fit_func, popt)
             yerr = 0 if yerr is None else yerr
             adjusted_yerr = np.sqrt(
-                yerr ** 2 + (xdata.errors * utils.numerical_derivative(func, xdata.values))**2)
+                yerr ** 2 + (xdata.errors * __slope_at_data_points(func, xdata.values)) ** 2)
 
             # re-calculate the fit with adjusted uncertainties for ydata
             popt, pcov = opt.curve_fit(  # pylint:disable=unbalanced-tuple-unpacking
@@ -278,6 +278,16 @@ def __curve_fit(fit_func, xdata, ydata, parguess, yerr) -> RawFitResults:
     perr = np.sqrt(np.diag(pcov))
 
     return RawFitResults(popt, perr, pcov)
+
+
+def __slope_at_data_points(func: Callable, xvalues: np.ndarray) -> np.ndarray:
+    """numerical slope of the fitted curve at the data points
+
+    The step follows the scale of the abscissae: the default absolute step of
+    numerical_derivative (1e-5) is wider than the whole data set when x is in small units.
+
+    """
+    return utils.numerical_derivative(func, xvalues, 1e-5 * np.ptp(xvalues))
 
 
 def __combine_fit_func_and_fit_params(func: Callable, params) -> Callable:
